@@ -106,7 +106,7 @@ ErrCall(r) ==
 New(r, voc) ==
     /\ r.ev = "New"
     /\ LET s == [hist |-> <<>>, mode |-> IF r.ok = 1 THEN "ok" ELSE "err",
-                 stop |-> "NotStopped", c |-> r.vid, cfgi |-> r.c, n |-> voc.n, eos |-> voc.eos,
+                 stop |-> "NotStopped", c |-> r.vid, cfgi |-> r.c, bc |-> voc.bc, n |-> voc.n, eos |-> voc.eos,
                  canon |-> voc.canon]
        IN /\ Put(r.e, s)
           /\ PostOk(r, s)
@@ -136,7 +136,9 @@ Mask(r) ==
             (* where nothing is known to be acceptable (whether that is legitimate is C03's claim) *)
             /\ \/ Stopped(r.e)
                \/ r.cls = "limit"
-               \/ r.cls = "empty" /\ PosOf(<<s.c, s.hist>>) = {}
+               \/ r.cls = "empty" /\ PosOf(<<s.c, s.hist>>) = {} /\ s.bc = 0
+                  (* with a byte-complete vocabulary a reachable state always has a continuation  *)
+                  (* or is accepting (C03): an empty mask / NoExtensionBias there has no action   *)
             /\ Put(r.e, Failed(s)) /\ PostOk(r, Failed(s))
             /\ UNCHANGED <<F, A>>
        ELSE LET M == SeqToSet(r.set)
@@ -210,6 +212,8 @@ ConsumeEach(r) ==
 Acc(r) ==
     /\ r.ev = "Acc" /\ Has(r.e) /\ Ok(r.e) /\ r.ok = 1
     /\ LET s == eng[r.e] IN
+       (* a normal stop is only ever reported where the text is complete *)
+       /\ s.stop \in {"NoExtension", "EndOfSentence"} => r.v = 1
        /\ LearnObs({<<<<"acc", s.c, s.hist>>, r.v>>})
        /\ IF Stopped(r.e) THEN UNCHANGED A
           ELSE IF r.v = 1 THEN LearnSets({PosFact(s.c, s.hist, s.eos)})
